@@ -71,6 +71,17 @@ def sps_def(fi):
 
 def run(ctx):
   from rules import C07, C09
+  from sa import pitfalls
+  scope = []
+  for fq in sorted(set([w for _f, _k, w in RENDERERS] + [f for f, _k in EXTRACTORS] + ['performance_lib:BasePerformance._from_quantized_sequence',
+                                                                                     'performance_lib:NotePerformance._from_quantized_sequence'])):
+    try:
+      scope.append(ctx.func(fq))
+    except Exception:      # pylint: disable=broad-except
+      ctx.note('pitfall scope: %s not found' % fq)
+  pitfalls.apply(ctx, 'PITFALL', scope, ['previous-wraps', 'neg-zero-slice'], {
+      'previous-wraps': 'the first event is compared with the last one, so what is written for step 0 depends on how the sequence ends: rendering then extracting no longer returns the events',
+      'neg-zero-slice': 'an empty remainder becomes the whole list'})
   C09.velocity(ctx)     # extraction re-bins the velocity the renderer wrote: the two maps must be inverse on bin representatives
   C07.roll_pitch_range(ctx, 'EXTRACT/roll-pitch-range')
   C07.roll_gap_index(ctx, 'EXTRACT/roll-gap-index')
